@@ -14,6 +14,10 @@ from .models import same_list
 
 TABLE_ROUTES = ("direct", "slice", "mask", "sorted", "stacked", "lshift", "renamed-method", "renamed-view", "assigned-column",
                 "assigned-cells", "setattr", "copy", "select", "from-dict")
+# routes that leave the dtype's nullable flag SET although the values hold no None (any more): used only by checks whose oracle
+# does not depend on the operand's flag (joins, aggregation, window, sorting) - they opt in with flagged=True
+TABLE_FLAG_ROUTES = ("none-row-sliced-away", "none-written-then-restored", "none-row-masked-away")
+TABLE_ROUTES_ALL = TABLE_ROUTES + TABLE_FLAG_ROUTES
 VECTOR_ROUTES = ("direct", "slice", "mask", "copy", "lshift", "assigned", "column-view", "sorted", "reversed-twice", "index-vector")
 
 
@@ -112,6 +116,22 @@ def build_table(cols, route):
         return t if schemas_equal(t, direct()) else None
     if route == "copy":
         return direct().copy()
+    if route == "none-row-sliced-away":
+        if n == 0:
+            return None
+        return direct([(nm, [None] + list(v)) for nm, v in cols])[1:n + 1]
+    if route == "none-row-masked-away":
+        if n == 0:
+            return None
+        return direct([(nm, list(v) + [None]) for nm, v in cols])[[True] * n + [False]]
+    if route == "none-written-then-restored":
+        if n == 0:
+            return None
+        t = direct()
+        for j, (_, v) in enumerate(cols):
+            t[0, j] = None
+            t[0, j] = v[0]
+        return t
     if route == "select":
         if any(not isinstance(nm, str) for nm in names) or len(set(names)) != len(names):
             return None
@@ -131,11 +151,21 @@ def schemas_equal(a, b):
     return sa == sb
 
 
-def table_variant(cols, index):
+def schemas_equal_up_to_flag(a, b):
+    """same kinds; a's nullable flag may be set where b's is not"""
+    def sch(t):
+        return [(c.schema().kind, c.schema().nullable) if c.schema() is not None else None for c in t.cols()]
+    sa, sb = sch(a), sch(b)
+    return len(sa) == len(sb) and all((x is None and y is None) or (x is not None and y is not None and x[0] is y[0] and (x[1] or not y[1])) for x, y in zip(sa, sb))
+
+
+def table_variant(cols, index, flagged=False):
     """Deterministic round-robin choice of a route; falls back to 'direct' when the route does not apply or does not
-    reproduce names / cells / dtypes exactly (the variant must be an equal object, or it is not used)."""
+    reproduce names / cells / dtypes exactly (the variant must be an equal object, or it is not used).
+    flagged=True adds the routes that leave a nullable flag behind (cells and kinds still equal)."""
     from serif import Table
-    route = TABLE_ROUTES[index % len(TABLE_ROUTES)]
+    routes = TABLE_ROUTES_ALL if flagged else TABLE_ROUTES
+    route = routes[index % len(routes)]
     try:
         t = build_table(cols, route)
     except Exception:
@@ -143,7 +173,8 @@ def table_variant(cols, index):
     if t is not None and type(t).__name__ == "Table":
         try:
             ref = build_table(cols, "direct")
-            if [c._name for c in t.cols()] == [nm for nm, _ in cols] and is_same_cells(t, cols) and schemas_equal(t, ref):
+            if [c._name for c in t.cols()] == [nm for nm, _ in cols] and is_same_cells(t, cols) and \
+                    (schemas_equal(t, ref) or (route in TABLE_FLAG_ROUTES and schemas_equal_up_to_flag(t, ref))):
                 return route, t
         except Exception:
             pass
